@@ -1078,6 +1078,13 @@ class Instrs(CallsMixin):
             v = V.fresh_val(types, ins['type'], 'loop_' + (ins.get('comment') or ins['name']))
             st.type_facts(v)
             st.regs[ins['name']] = v
+        # call counters: an unknown number of further calls may have happened
+        for pat in self.cx.call_patterns:
+            k = 'calls:' + pat
+            old = st.ghost.get(k, z3.IntVal(0))
+            nv = z3.Int(fresh_name('ncalls'))
+            st.assume(nv >= old)
+            st.ghost[k] = nv
 
     def auto_invariants(self, st, fr, h, phis):
         """candidate bounds for counting loops; each is (name, fn(state) -> formula)"""
